@@ -308,3 +308,165 @@ def excerpt(trace, limit=40):
     return {"cfg": trace["cfg"], "harness": trace.get("harness"),
             "events": ["%s@%s %s n%s %s %s" % (e["q"], e["t"], e["k"], e["n"], e["v"], e["i"])
                        for e in trace["ev"] if e["k"] != "snap"][:limit]}
+
+
+# ---------------------------------------------------------------- metamorphic pairs
+def flatten(cfg):
+    """the flattened graph of a nested tree: (flat cfg, map flat id -> original id)"""
+    n = cfg["n"]
+    kind, parent, req = cfg["kind"], cfg["parent"], cfg["req"]
+
+    def kids(s):
+        return [k for k in range(2, n + 1) if parent[k - 1] == s]
+
+    def ends(r):
+        if kind[r - 1] == "job":
+            return {r}
+        ks = kids(r)
+        if not ks:
+            return flatreq(r)
+        out = set()
+        for k in ks:
+            if not any(k in req[j - 1] for j in ks):
+                out |= ends(k)
+        return out
+
+    def flatreq(x):
+        if x == 1:
+            return set()
+        if req[x - 1]:
+            out = set()
+            for r in req[x - 1]:
+                out |= ends(r)
+            return out
+        return flatreq(parent[x - 1])
+
+    atoms = [i for i in range(2, n + 1) if kind[i - 1] == "job"]
+    newid = {a: idx + 2 for idx, a in enumerate(atoms)}
+    m = len(atoms) + 1
+    flat = {"n": m, "pure": cfg["pure"], "kind": ["sched"] + ["job"] * (m - 1),
+            "parent": [0] + [1] * (m - 1),
+            "req": [[]] + [sorted(newid[r] for r in flatreq(a)) for a in atoms],
+            "horizon": cfg.get("horizon", 0)}
+    for key in ("crit", "forever", "win", "tmo", "stmo", "dur", "out", "sdur", "cdur"):
+        flat[key] = [cfg[key][0]] + [cfg[key][a - 1] for a in atoms]
+    back = [1] + atoms
+    return flat, back
+
+
+def flip_pairs(count, seed):
+    import random
+    rng = random.Random("flip-%d" % seed)
+    base = tvfam.scenarios("C06", count * 2, seed)
+    out = []
+    for sc in base:
+        cfg = sc["cfg"]
+        cands = [j for j in range(2, cfg["n"] + 1) if cfg["kind"][j - 1] == "job"
+                 and not cfg["crit"][j - 1] and cfg["dur"][j - 1] >= 0]
+        if not cands:
+            continue
+        f = rng.choice(cands)
+        a = json.loads(json.dumps(sc))
+        b = json.loads(json.dumps(sc))
+        a["cfg"]["out"][f - 1] = "ok"
+        b["cfg"]["out"][f - 1] = "exc"
+        ident = list(range(1, cfg["n"] + 1))
+        out.append((a, b, f, ident, ident, "flip"))
+        if len(out) >= count:
+            break
+    return out
+
+
+def flat_pairs(count, seed):
+    import random
+    import scenario
+    rng = random.Random("flat-%d" % seed)
+    out = []
+    while len(out) < count:
+        kind, parent, req = scenario.tree(scenario.random_tree(rng, max_nodes=rng.choice([5, 8, 11]), p_sched=0.4))
+        n = len(kind)
+        if n < 3 or "sched" not in kind[1:]:
+            continue
+        jobs = [i for i in range(n) if kind[i] == "job"]
+        cfg = scenario.mkcfg(
+            kind, parent, req,
+            crit=[rng.random() < 0.5 if kind[i] == "job" or i == 0 else True for i in range(n)],
+            dur=[rng.choice([0, 1, 1, 2, 3]) if kind[i] == "job" else 0 for i in range(n)],
+            out=[("exc" if rng.random() < 0.2 else "ok") if kind[i] == "job" else "ok" for i in range(n)],
+            tmo=[-1] * n,
+            pure=rng.random() < 0.2)
+        flat, back = flatten(cfg)
+        perm = list(range(1, n + 1))
+        rng.shuffle(perm)
+        ha = {"k": [rng.choice([0, 0, 1]) for _ in range(n)], "hash": perm,
+              "flavour": [rng.choice(["abs", "job"]) for _ in range(n)], "verbose": False}
+        hb = {"k": [ha["k"][i - 1] for i in back], "hash": [perm[i - 1] for i in back],
+              "flavour": [ha["flavour"][i - 1] for i in back], "verbose": False}
+        a = {"sid": 0, "cfg": cfg, "harness": ha, "snap": False}
+        b = {"sid": 0, "cfg": flat, "harness": hb, "snap": False}
+        out.append((a, b, 0, list(range(1, n + 1)), back, "flat"))
+    return out
+
+
+def extra_checks(prop, tier, seed, workdir):
+    """C06 / C10: metamorphic pairs of real runs compared by TLC (TwinTrace),
+    and for C06 the lock-step bisimulation on the model (OrchestraTwin)"""
+    if prop not in ("C06", "C10"):
+        return None
+    import structcheck
+    count = (1200 if tier == "quick" else 24000)
+    pairs = flip_pairs(count, seed) if prop == "C06" else flat_pairs(count, seed)
+    states = trans = 0
+    model = None
+    if prop == "C06":
+        fam, _, desc = families.family("flat" if tier == "quick" else "nested", tier, seed)
+        famf = os.path.join(workdir, "fam-twin.json")
+        with open(famf, "w") as out:
+            json.dump(fam, out)
+        rc, out = tlc.run("OrchestraTwin.tla", "OrchestraTwin.cfg", env={"FAMILY_FILE": famf},
+                          workers=16, scratch=workdir)
+        if tlc.violated(out):
+            raise tlc.TlcFailure("the specification is not outcome-blind for non-critical jobs:\n" + out[-3000:])
+        if "Model checking completed" not in out:
+            raise tlc.TlcFailure("TLC failed on OrchestraTwin:\n" + out[-3000:])
+        gen, dist = tlc.stats(out)
+        states += dist
+        trans += gen
+        model = {"module": "OrchestraTwin", "configurations": len(fam), "distinct_states": dist}
+
+    def job(args):
+        idx, chunk = args
+        fa = record([p[0] for p in chunk], workdir, "pa%d" % idx)
+        fb = record([p[1] for p in chunk], workdir, "pb%d" % idx)
+        with open(fa) as inp:
+            ta = json.load(inp)
+        with open(fb) as inp:
+            tb = json.load(inp)
+        os.remove(fa)
+        os.remove(fb)
+        items = [{"mode": p[5], "f": p[2], "mapa": p[3], "mapb": p[4], "a": x["ev"], "b": y["ev"]}
+                 for p, x, y in zip(chunk, ta, tb)]
+        pf = os.path.join(workdir, "pairs-%d.json" % idx)
+        with open(pf, "w") as out:
+            json.dump(items, out)
+        acc, front, gen, dist = structcheck.validate("TwinTrace.tla", "TwinTrace.cfg", pf, workdir)
+        os.remove(pf)
+        bad = []
+        for i, p in enumerate(chunk):
+            if (i + 1) not in acc:
+                bad.append({"property": prop, "kind": "pair", "mode": p[5], "a": p[0], "b": p[1], "f": p[2],
+                            "trace_a": ta[i], "trace_b": tb[i]})
+        return len(chunk), bad, gen, dist
+
+    chunks = [pairs[i::NSHARDS] for i in range(NSHARDS)]
+    chunks = [(i, c) for i, c in enumerate(chunks) if c]
+    total, bad = 0, []
+    with concurrent.futures.ThreadPoolExecutor(max_workers=NSHARDS) as pool:
+        for cnt, b, gen, dist in pool.map(job, chunks):
+            total += cnt
+            bad += b
+            states += dist
+            trans += gen
+    return {"violations": bad[:20], "states": states, "transitions": trans,
+            "coverage": {"pairs_compared": total, "pairs_differing": len(bad), "model": model,
+                         "mode": "flip of one non-critical outcome" if prop == "C06" else "nested vs flattened"}}
